@@ -1355,3 +1355,12 @@ Proof. intros LAW p h c0 Hw He. apply (cache_transparent body pick P good LAW); 
 
 Lemma hist_wf_good p h : (forall q, In q (hist_pipelines p h) -> wf_pipeline q) -> hist_good p h.
 Proof. intros H q Hq. split; [now apply H | apply RootArgsFacts.roots_okb_of_wf; now apply H]. Qed.
+
+(* Pipeline.run validates its keywords before anything else (Pipe.run_precheck); when it passes, the call is `crun` *)
+Lemma crun_checked_pass body pick {C} (P : policy C) legacy use p c o kw full :
+  run_precheck p o kw = Ok tt ->
+  crun_checked body pick P legacy use p c o kw full = crun body pick P legacy use p c o kw full.
+Proof. unfold crun_checked. now intros ->. Qed.
+Lemma crun_checked_reject body pick {C} (P : policy C) legacy use p c o kw full e :
+  run_precheck p o kw = Err e -> crun_checked body pick P legacy use p c o kw full = (Err e, [], c).
+Proof. unfold crun_checked. now intros ->. Qed.
